@@ -31,7 +31,7 @@ def rule_hook_protocol(ctx):
 
 def rule_row_protocol(ctx):
     ctx.res.minimum("O20.row", 1)
-    protocol.validate_row_table(ctx, "O20.row")
+    protocol.validate_row_table(ctx, "O20.row", aspects=())
 
 
 def rule_run_protocol(ctx):
